@@ -444,6 +444,7 @@ theorem ninv_apply (g : G) (a : Action)
             · intro j hj hb
               exact absurd (h.blocked j hj hb).2.1 h2'.1
             · intro hs'; rw [hs] at hs'; cases hs'
+  | cancelRem p => exact (ninv_deliverCancels g _ h).1
 
 theorem ninv_init (p : Policy) : NInv s { wait := p } :=
   ⟨by simp [isBlocked], by simp [hpNat], by intro j hj; simp at hj, fun _ => rfl⟩
